@@ -88,9 +88,12 @@ def attrNames : List String :=
 
 end Candle
 
+/-- Python `name.split(".")`, on the character list (kernel-reducible, unlike `String.splitOn`) -/
+def splitDot (s : String) : List String := (s.toList.splitOn '.').map String.ofList
+
 /-- `utils.candles.reading_by_candle` (names without a dot) and `_nested_indicator` (with one) -/
 def readingByCandle (c : Candle F) (name : String) : Val F :=
-  match name.splitOn "." with
+  match splitDot name with
   | [main, nested] =>
     match dlookup main c.inds with
     | some r => r.nested nested
